@@ -46,8 +46,16 @@ def raw_graph_script(rng, n_nodes, n_rounds):
         s.append({"op": "ExportDoc", "g": src})
         entry = rng.choice(["string", "file", "string_direct", "file_direct"])
         tgt = rng.choice(["H1", "H2", "G"])
-        s.append({"op": "Import", "entry": entry, "h": tgt})
         real_tgt = tgt if entry in ("string", "file") else src
+        # history: the graph the import lands on changed after the text was written - whatever the entry point, the
+        # import replaces what is stored under that id with the content of the text
+        if rng.random() < 0.4:
+            for _ in range(rng.choice([1, 2])):
+                s.append(rng.choice([
+                    {"op": "AddNode", "g": real_tgt, "n": "late%d" % k, "cls": "K1", "props": {"p": value(rng)}},
+                    {"op": "DeleteNode", "g": real_tgt, "n": rng.choice(ids)},
+                    {"op": "UpdateNodeProp", "g": real_tgt, "n": rng.choice(ids), "p": "p", "v": value(rng)}]))
+        s.append({"op": "Import", "entry": entry, "h": tgt})
         s.append({"op": "Validate", "g": real_tgt})
         s.append({"op": "ExportDoc", "g": real_tgt})     # serialising the copy again gives the same content
         if rng.random() < 0.5:
